@@ -202,8 +202,10 @@ impl System for Sys {
 /// delays and lateness bounds of a second and more, on a coarse timestamp grid (units that do not fit in the
 /// sub-second part of a Duration)
 fn configs_coarse() -> Vec<(Gen, Late)> {
-    let gens = [Gen::Bounded(1000), Gen::Bounded(1500), Gen::Bounded(2000), Gen::Bounded(60_000)];
-    let lates = [Late::Drop, Late::Allowed(1000), Late::Allowed(2500), Late::Side, Late::Recompute];
+    // whole and mixed second + millisecond delays (values that do not survive a detour through floating-point
+    // seconds), and a lateness bound that means "never drop"
+    let gens = [Gen::Bounded(1000), Gen::Bounded(1001), Gen::Bounded(1235), Gen::Bounded(1500), Gen::Bounded(2000), Gen::Bounded(4097), Gen::Bounded(60_000)];
+    let lates = [Late::Drop, Late::Allowed(1000), Late::Allowed(2500), Late::Allowed(u64::MAX), Late::Side, Late::Recompute];
     let mut v = vec![];
     for g in gens {
         for l in lates {
@@ -245,7 +247,7 @@ pub fn run(opts: &Opts) -> Vec<Report> {
             cfg.ctx = json!({"gen": format!("{:?}", g), "late": format!("{:?}", l), "timestamps": alpha});
             let a = alpha.clone();
             let r = explore::explore(&move || Sys::new(g, l, &a), &cfg);
-            total.bound = if coarse { format!("all timestamp sequences of length <= {} over {:?} ms x delays 1 s, 1.5 s, 2 s, 60 s x 5 late-data strategies (lateness bounds 1 s, 2.5 s)", depth, alpha) } else { format!("all timestamp sequences of length <= {} over {:?} x 5 watermark generators x 6 late-data strategies", depth, alpha) };
+            total.bound = if coarse { format!("all timestamp sequences of length <= {} over {:?} ms x delays 1000, 1001, 1235, 1500, 2000, 4097, 60000 ms x 6 late-data strategies (lateness bounds 1 s, 2.5 s, u64::MAX ms)", depth, alpha) } else { format!("all timestamp sequences of length <= {} over {:?} x 5 watermark generators x 6 late-data strategies", depth, alpha) };
             total.merge(r);
         }
         total.count("nontrivial", 0);
